@@ -177,7 +177,7 @@ Proof. reflexivity. Qed.
 Lemma cleanup_loop_numbers c crit k n m w closed lo mid :
   numkcfg c crit k -> sfx_ok (c_spec c) -> klim k = Some (n, m) ->
   quiet w -> fs_wf (wfs w) -> kdir c (wfs w) closed lo mid ->
-  exists w', cleanup_loop w (listing c lo mid (length closed)) 0 n (n + m) = (true, w') /\ same_env w w' /\ fs_wf (wfs w')
+  exists w', cleanup_loop w (listing c lo mid (length closed)) 0 n (n + m) None = (true, w') /\ same_env w w' /\ fs_wf (wfs w')
     /\ kdir c (wfs w') closed (Nat.max lo (length closed - (n + m))) (Nat.max mid (length closed - n))
     /\ same_at (wfs w) (wfs w') (cname c).
 Proof.
@@ -186,7 +186,7 @@ Proof.
   rewrite (cleanup_impl_unfold c w k IFNum n m Hk Q), (fixed_of_fixed0 c w Hts) in E.
   rewrite (list_log_gz_numbers c (wfs w) (woff w) lo mid (length closed) Hsfx (kdir_shape _ _ _ _ _ KD)) in E.
   rewrite (listing_no_redundant c lo mid (length closed) Hsfx (kd_le _ _ _ _ _ KD)) in E. cbn [remove_redundant negb] in E.
-  destruct (cleanup_loop w (listing c lo mid (length closed)) 0 n (n + m)) as [ok w2].
+  destruct (cleanup_loop w (listing c lo mid (length closed)) 0 n (n + m) None) as [ok w2].
   destruct ok; [|discriminate]. injection E as ->. exists w'. auto.
 Qed.
 
@@ -194,7 +194,7 @@ Qed.
 Theorem cleanup_xdir c crit k n m w closed ocur lo mid red :
   numkcfg c crit k -> sfx_ok (c_spec c) -> klim k = Some (n, m) ->
   quiet w -> kst c (wfs w) (wfs w) closed ocur lo mid red ->
-  exists w', cleanup_impl c w k IFNum false = (Ok tt, w') /\ same_env w w'
+  exists w', cleanup_impl c w k IFNum None = (Ok tt, w') /\ same_env w w'
     /\ kst c (wfs w) (wfs w') closed ocur (Nat.max lo (length closed - (n + m))) (Nat.max mid (length closed - n)) None.
 Proof.
   intros Hcfg Hsfx Hk Q K. pose proof Hcfg as (Hrot & Hts & _). pose proof K as [W Nd X Sc].
